@@ -28,7 +28,8 @@ RULE = ("batdata generator (1-5 groups with 1-3 batteries behind 1-4 shared inve
         "ordered bounds; probes = the four advertised bounds, +-1 W around each, +-0.001 W, random interior. distinct = "
         "canonical case JSON; non-trivial = >=2 groups or a shared-inverter/shared-battery group, and at least one "
         "probe inside and one outside the advertised bounds")
-REQUIRED_BUCKETS = ["probe-inside-accepted", "probe-outside-rejected", "shared-inverters(n bat:1 inv)",
+REQUIRED_BUCKETS = ["group-with-one-battery-not-working",
+                    "probe-inside-accepted", "probe-outside-rejected", "shared-inverters(n bat:1 inv)",
                     "shared-batteries(1 bat:n inv)", "nonzero-exclusion", "adjust_power=True", "adjust_power=False",
                     "probe-on-bound", "irregular-group(batteries with different inverter sets)"]
 REQUIRED_COUNTERS = ["probes_checked", "inclusion_bounds_compared", "min_power_sums_checked"]
